@@ -47,6 +47,16 @@ pub fn run() -> usize {
             ck!(r < m && q.mul(&m).add(&r) == *a, "divrem {:?} {:?}", a, m);
         }
         ck!(fp::reduce(a) == a.rem(&fp::p()), "fold-reduce vs rem {:?}", a);
+        ck!(super::zl::reduce(a) == a.rem(&l()), "zl fold-reduce vs rem {:?}", a);
+        if a.bits() <= 256 {
+            for b in &pats {
+                if b.bits() <= 256 {
+                    let prod = a.mul(b);
+                    ck!(super::zl::reduce(&prod) == prod.rem(&l()), "zl fold-reduce vs rem (product)");
+                    ck!(fp::reduce(&prod) == prod.rem(&fp::p()), "fp fold-reduce vs rem (product)");
+                }
+            }
+        }
         ck!(a.shl(0) == *a && a.shr(0) == *a, "shift 0");
         if a.bits() <= 500 {
             ck!(a.shl(11).shr(11) == *a, "shl/shr");
@@ -65,6 +75,7 @@ pub fn run() -> usize {
     for v in [1u64, 2, 3, 4, 5, 7, 19, 121665] {
         let x = Fp::from_u64(v);
         ck!(x.mul(&x.inv()) == Fp::ONE, "inv {}", v);
+        ck!(x.inv() == x.inv_slow(), "inv chain vs pow {}", v);
         for w in [1u64, 2, 3, 5] {
             let y = Fp::from_u64(w);
             let (ok, r) = fp::sqrt_ratio_i(&x, &y);
@@ -78,6 +89,10 @@ pub fn run() -> usize {
         }
     }
     ck!(Fp::ZERO.inv() == Fp::ZERO, "inv(0)=0");
+    for a in &pats {
+        let x = Fp::new(a);
+        ck!(x.inv() == x.inv_slow(), "inv chain vs pow (pattern)");
+    }
     ck!(fp::sqrt_ratio_i(&Fp::ZERO, &Fp::ZERO) == (true, Fp::ZERO), "0/0");
     ck!(fp::sqrt_ratio_i(&Fp::ONE, &Fp::ZERO) == (false, Fp::ZERO), "1/0");
     // --- Edwards
